@@ -165,6 +165,11 @@ func (c *saCtx) keyedChain(cs *kCase) {
 				}
 			}
 			rc := rs[hashOf(verifSeed, i, exp[i].Canon())%uint64(len(rs))]
+			if c.mode == "c03" && hashOf(verifSeed, c.obs.Key)%2 == 0 {
+				if _, _, ok := realise(exp[i], "apicap"); ok {
+					rc = "apicap"
+				}
+			}
 			o, src, _ = realise(exp[i], rc)
 			opname, l = "lit:"+rc, exp[i]
 		case "map":
